@@ -25,6 +25,10 @@ fn main() {
     }
     let id = args[1].clone();
     if id == "DEBUG" {
+        if args.get(2).map(|s| s == "c16").unwrap_or(false) {
+            debug::replay_c16(&args[3]);
+            return;
+        }
         debug::run(args.get(2).map(|s| s.as_str()).unwrap_or(""));
         return;
     }
